@@ -4,3 +4,5 @@ pub mod util;
 pub mod exec;
 pub use util::*;
 pub mod scopedump;
+pub mod walk;
+pub mod gen_walker;
